@@ -368,6 +368,7 @@ func judgePreset(c ObsCase) *eng.Fail {
 	data := selData()
 	data["$rate"], data["$seen"] = 0.25, "before"
 	data["u0"], data["i16z"], data["u5"] = uint8(0), int16(0), uint16(5)
+	data["up0"], data["up3"] = uintptr(0), uintptr(3)
 	o, err := evalWith("[("+parts[0]+")]", data)
 	if err != nil || o.panicked || o.err != nil {
 		return eng.F("C06/eval", "%s: %v %v %s", parts[0], err, o.err, o.panicMsg)
@@ -674,6 +675,7 @@ func runC06(w *eng.W) {
 			{"0 ? ($rate = 1) : $rate", "num:0.25"}, {"1 ? $rate : ($rate = 1)", "num:0.25"}, {"$rate = $rate ?? 0.1", "num:0.25"},
 			{"[1 ? 5 : ($seen = 'x'), $seen]", "[num:5,str:\"before\"]"}, {"[$unset ?? 'none', 0 ? ($unset = 1) : 2, $unset]", "[str:\"none\",num:2,null]"},
 			{"$rate ? ($seen = $seen + '!') : ($seen = 'no'), $seen", "str:\"before!\""},
+			{"[!!up0, up0 ? 'a' : 'b', up0 || 7, !up0, !up3, up3 && 7, up0 ?? 1]", "[bool:false,str:\"b\",num:7,bool:true,bool:false,num:7,num:0]"},
 			// zeros of the other built-in integer types are numeric zeros
 			{"[!!u0, u0 ? 1 : 2, u0 || 'R', !u0, !!i16z, i16z ?? 9, !!u5, u5 && 1]", "[bool:false,num:2,str:\"R\",bool:true,bool:false,num:0,bool:true,num:1]"}, {"[0 ? ($rate = 3) : 4, 1 ? 6 : ($rate = 5), $rate]", "[num:4,num:6,num:0.25]"},
 		} {
